@@ -294,4 +294,67 @@ theorem ring_shift (order : Nat) (ho : order = 1 ∨ order = 2) (h : Rat) (xs : 
   · rw [ring_centred_d2 _ _ _ (by rw [hrl]; exact hj), ring_centred_d2 _ _ _ hm]
     rw [hrl, ringVal_roll _ _ _ hne, ringVal_roll _ _ _ hne, ringVal_roll _ _ _ hne, k1, k2, k3]
 
+/-! ## field level: per component, per grid line, metadata -/
+
+
+/-- `Field.diff` keeps mesh, component count, labels, mapping, unit and validity, and the
+array shape -/
+theorem diff_keeps_meta (f g : Fld) (ax order : Nat) (restrict : Bool) (h : diff f ax order restrict = .ok g) :
+    g.mesh = f.mesh ∧ g.nvdim = f.nvdim ∧ g.vdims = f.vdims ∧ g.vmap = f.vmap ∧ g.unit = f.unit ∧
+    g.valid.shape = f.valid.shape ∧ g.valid.get = f.valid.get ∧ g.data.shape = f.data.shape := by
+  unfold diff at h
+  split at h
+  · cases h
+  · split at h
+    · cases h
+    · injection h with h; subst h
+      exact ⟨rfl, rfl, rfl, rfl, rfl, rfl, rfl, rfl⟩
+
+/-- orders other than 1 and 2 are refused -/
+theorem diff_rejects_order (f : Fld) (ax order : Nat) (restrict : Bool) (ho : order ≠ 1 ∧ order ≠ 2) :
+    diff f ax order restrict = .error .notImpl := by
+  unfold diff; rw [if_pos ho]
+
+/-- Per component and per grid line: the value of `diff` at cell `i`, component `c`, is entry
+`i[ax]` of the 1-d derivative of the line through `i` — it depends on nothing else. -/
+theorem diff_cell (f g : Fld) (ax order : Nat) (restrict : Bool) (h : diff f ax order restrict = .ok g)
+    (i : List Nat) (c : Nat) (hc : c < f.nvdim) :
+    (g.data.get i).getD c 0
+      = (diffLine' (f.mesh.bc.toList.any fun ch => String.singleton ch == f.mesh.region.dims.getD ax "")
+          restrict order (f.mesh.cellAt ax) (lineCells f ax i c)).getD (i.getD ax 0) 0 := by
+  unfold diff at h
+  split at h
+  · cases h
+  · split at h
+    · cases h
+    · injection h with h; subst h
+      simp only [lineCells]
+      rw [getD_tab _ _ _ _ hc]
+
+/-- Hence two fields on the same mesh that agree (values of component `c` and validity) on the
+grid line through `i` have the same derivative at `(i, c)`, whatever they hold elsewhere and in
+other components. -/
+theorem diff_linewise (f1 f2 g1 g2 : Fld) (ax order : Nat) (restrict : Bool)
+    (h1 : diff f1 ax order restrict = .ok g1) (h2 : diff f2 ax order restrict = .ok g2)
+    (hmesh : f1.mesh = f2.mesh) (i : List Nat) (c : Nat) (hc1 : c < f1.nvdim) (hc2 : c < f2.nvdim)
+    (hline : lineCells f1 ax i c = lineCells f2 ax i c) :
+    (g1.data.get i).getD c 0 = (g2.data.get i).getD c 0 := by
+  rw [diff_cell f1 g1 ax order restrict h1 i c hc1, diff_cell f2 g2 ax order restrict h2 i c hc2, hmesh, hline]
+
+/-- with the validity restriction switched off the whole line is treated as one run:
+same result as for an all-true mask -/
+theorem restrict_off (periodic : Bool) (order : Nat) (h : Rat) (cells : List (Rat × Bool)) :
+    diffLine' periodic false order h cells = diffLine' periodic true order h (cells.map fun c => (c.1, true)) := by
+  unfold diffLine'
+  simp
+
+/-- … and on an open line that is the plain stencil over the whole line -/
+theorem restrict_off_open (order : Nat) (h : Rat) (cells : List (Rat × Bool)) :
+    diffLine' false false order h cells = diffRun order h (cells.map (·.1)) := by
+  unfold diffLine'
+  simp only [Bool.false_eq_true, if_false]
+  have : (cells.map fun c => (c.1, true)) = (cells.map (·.1)).map (·, true) := by simp
+  rw [this, all_valid_one_run]
+
+
 end DFV.C04
